@@ -97,7 +97,9 @@ pub fn stages(prop: &str, tier: &str) -> Vec<Stage> {
             v.push(stage("triples of 1-op threads, books B1-B5", programs_1op(3, &books5, &alpha), Some(2)));
             v.push(stage("pairs of 2-op threads, reduced alphabet, B1-B4", programs_2x2(&BOOKS4, &small), Some(2)));
             v.push(stage("pairs of 1-op threads on a 70-order book", programs_1op(2, &[Book::B9, Book::B10], &big), Some(1)));
+            v.push(stage("victim programs: one fine-grained operation against 3 call-atomic operations of another thread, B1 B2 B3 B12", programs_victim(&[Book::B1, Book::B2, Book::B3, Book::B12], &alpha, &[COp::Add, COp::Match(2), COp::Match(20), COp::Cancel(1), COp::Amend(1, 2)], 3), None));
         } else {
+            v.push(stage("victim programs: one fine-grained operation against 4 call-atomic operations of another thread, seven books", programs_victim(&[Book::B1, Book::B2, Book::B3, Book::B4, Book::B7, Book::B8, Book::B12], &wide, &small, 4), None));
             v.push(stage("pairs and triples of 1-op threads on a 70-order book", { let mut p = programs_1op(2, &[Book::B9, Book::B10], &big); p.extend(programs_1op(3, &[Book::B9], &big)); p }, Some(2)));
             // a wider alphabet for the unbounded two-thread programs: iceberg adds, amend to zero display
             // (an order that can give nothing), a second price move
@@ -115,7 +117,7 @@ pub fn stages(prop: &str, tier: &str) -> Vec<Stage> {
                 for i in 0..seqs.len() {
                     for j in i..seqs.len() {
                         for k in j..seqs.len() {
-                            p3x2.push(Program { book: b, threads: vec![seqs[i].clone(), seqs[j].clone(), seqs[k].clone()] });
+                            p3x2.push(Program { book: b, threads: vec![seqs[i].clone(), seqs[j].clone(), seqs[k].clone()], coarse: vec![] });
                         }
                     }
                 }
@@ -820,6 +822,8 @@ pub fn replay(doc: &Value) -> i32 {
 struct ProgramDe {
     book: String,
     threads: Vec<Vec<Value>>,
+    #[serde(default)]
+    coarse: Vec<bool>,
 }
 
 impl ProgramDe {
@@ -884,6 +888,7 @@ impl ProgramDe {
         Program {
             book,
             threads: self.threads.iter().map(|t| t.iter().map(op).collect()).collect(),
+            coarse: self.coarse,
         }
     }
 }
